@@ -292,7 +292,12 @@ def analyse(rep, prog, name, full, also=()):
                 any(isinstance(x, tuple) and len(x) == 5 and x[0] == "method" and x[2] in ("random", "uniform", "integers", "normal") for a_ in c_.args for x in walk(a_))
         other = [c for c in S.select("call", qname=f.qname) if (c.callkind == "method" and c.target in (".shuffle", ".permuted", ".choice")) or
                  (c.callkind == "ext" and c.target in ("numpy.random.permutation", "numpy.random.shuffle", "numpy.random.choice", "random.shuffle", "random.sample")) or sorts_a_draw(c)]
-        if other:
+        with_repl = [c for c in other if c.target in (".choice", "numpy.random.choice") and not is_const((c.kwargs or {}).get("replace", c.args[2] if len(c.args) > 2 else ("const", True)), False)]
+        if with_repl:
+            # numpy's choice draws *with* replacement unless replace=False is given: labels repeat, the relabelling is not a bijection of the nodes
+            rep.bad("PERM.random", fwhere(f, with_repl[0].node), "the relabelling is drawn with %s without replace=False: a sample with replacement, not a permutation of the nodes "
+                    "(repeated labels; some nodes never appear)" % with_repl[0].target)
+        elif other:
             rep.unk("PERM.random", fwhere(f, other[0].node), "the random relabelling is not drawn with rng.permutation(p); this way of drawing it (%s) is not read" % other[0].target)
         else:
             rep.bad_form("PERM.random", fwhere(f), "no rng.permutation(p) from default_rng(random_state): the nodes are not relabelled at random")
